@@ -956,4 +956,25 @@ theorem par3d_same_core (tol : Rat) (a b c d : P3) (h0 : 0 ≤ tol)
       exact overlap3_same tol a b c d ax ts te (by rw [← hget]; exact hax) hc hd (E4 ax)
 
 
+theorem Res.same_refl {α : Type} (r : Res α) : Res.same r r := by
+  cases r <;> simp [Res.same]
+
+theorem Res.same_of_eq {α : Type} {r s : Res α} (h : r = s) : Res.same r s := h ▸ Res.same_refl r
+
+theorem seg3d_eq_par (tol : Rat) (a b c d : P3) (htol : 0 < tol)
+    (hxy : minor ⟨b.x - a.x, b.y - a.y, b.z - a.z⟩ ⟨d.x - c.x, d.y - c.y, d.z - c.z⟩ .xy = 0)
+    (hxz : minor ⟨b.x - a.x, b.y - a.y, b.z - a.z⟩ ⟨d.x - c.x, d.y - c.y, d.z - c.z⟩ .xz = 0)
+    (hyz : minor ⟨b.x - a.x, b.y - a.y, b.z - a.z⟩ ⟨d.x - c.x, d.y - c.y, d.z - c.z⟩ .yz = 0) :
+    seg3d tol a b c d = par3d true tol a b c d := by
+  simp only [seg3d, seg3dWith, Dims.pick, hxy, hxz, hyz, rabs_zero, htol, not_true_eq_false, if_false, if_true]
+
+/-- exactness of a tolerance test on a rational that is an integer -/
+theorem rabs_gt_iff_of_int (q : Rat) (n : Int) (h : q = n) (tol : Rat) (h0 : 0 ≤ tol) (h1 : tol < 1) :
+    rabs q > tol ↔ q ≠ 0 := by
+  rw [h, abs_gt_tol_iff n tol h0 h1]; exact_mod_cast Iff.rfl
+
+theorem rabs_lt_iff_of_int (q : Rat) (n : Int) (h : q = n) (tol : Rat) (h0 : 0 < tol) (h1 : tol ≤ 1) :
+    rabs q < tol ↔ q = 0 := by
+  rw [h, abs_lt_tol_iff n tol h0 h1]; exact_mod_cast Iff.rfl
+
 end PorepyVerif.C28
